@@ -142,14 +142,20 @@ def judge_heap(case, impl, model):
     msg = P.correspondence(case, impl, model)
     fails = []
     for p in impl.get("probes", []):
-        if p["root"] != 0 or p["op"] == "copy" or "unavailable" in p or p.get("same"):
+        if p["op"] == "copy" or "unavailable" in p or p.get("same"):
             continue
         for (tag, via_back, depth), path in zip(p.get("shared_tags", []), p.get("shared", [])):
-            if tag in ("ImmutableStructure", "tuple", "frozenset") or via_back:
-                continue
-            fails.append((f"copy-shares-mutable:{p['op']}:{tag}",
-                          f"the {p['op']} copy of x holds the very object x holds at {'.'.join(path)} (a {tag}): "
-                          f"class {case['cls']['name']}"))
+            if p["root"] == 0:
+                if tag in ("ImmutableStructure", "tuple", "frozenset") or via_back:
+                    continue
+                fails.append((f"copy-shares-mutable:{p['op']}:{tag}",
+                              f"the {p['op']} copy of x holds the very object x holds at {'.'.join(path)} (a {tag}): "
+                              f"class {case['cls']['name']}"))
+            elif path == ["_instance"]:
+                # the deep / unpickled copy of a field's collection taken on its own is bound to the ORIGINAL owner
+                fails.append((f"wrapper-copy-bound-to-owner:{p['op']}:{P.WRAPPER_KINDS.get(p['root_tag'], p['root_tag'])}",
+                              f"the {p['op']} copy of a field's {p['root_tag']} taken on its own has the original instance as "
+                              f"its _instance (heap case): class {case['cls']['name']}"))
     return msg, fails
 
 
